@@ -1,9 +1,46 @@
 """C01 - Hypergraph answers every query as the abstract hypergraph of its history."""
 from checks.containers import run_container
+from harness import tlc
+from harness.verdict import Result
+
+MUTANTS = ("reappend", "nmd_leak", "partial", "weight_after")
+
+
+def impl_consts(bug, n, maxid, weighted):
+    return {"Kind": "hg", "Node": set(range(1, n + 1)), "MaxW": 2, "Weighted": weighted, "MaxId": maxid, "Bug": bug,
+            "MKeys": {"a"}, "MVals": {"1"}}
+
+
+def explore_impl(res, tier):
+    """the implementation-shaped model (tables of the class) refines HGX and keeps IndexInv;
+    its historic-fault variants must be rejected by TLC (non-vacuity of the invariants)"""
+    runs = [(2, 3, True)] if tier == "quick" else [(2, 4, True), (2, 5, False), (3, 3, True)]
+    for (n, maxid, weighted) in runs:
+        cfg = tlc.cfg_text(impl_consts("none", n, maxid, weighted), init="Init", next_="INext",
+                           invariants=["IndexInv"], constraints=["IBound"])
+        r = tlc.run("HGImpl", cfg, workers=16, timeout=3000, heap="8g")
+        if not tlc.ok_exploration(r):
+            raise tlc.TLCError("HGImpl does not refine HGX / breaks IndexInv:\n" + tlc.error_excerpt(r["out"]))
+        s = tlc.stats(r["out"])
+        res.cov(states=s["distinct"], transitions=s["generated"])
+        res.coverage.setdefault("explorations", []).append(
+            {"module": "HGImpl", "n": n, "max_id": maxid, "weighted": weighted, "states": s["distinct"],
+             "transitions": s["generated"], "wall_s": round(r["wall"], 1), "checked": ["IndexInv", "refines HGX (Assert in INext)"]})
+    rejected = []
+    for bug in (MUTANTS if tier == "thorough" else MUTANTS[:1]):
+        cfg = tlc.cfg_text(impl_consts(bug, 3, 4, True), init="Init", next_="INext",
+                           invariants=["IndexInv"], constraints=["IBound"])
+        r = tlc.run("HGImpl", cfg, workers=16, timeout=600, heap="8g")
+        if tlc.ok_exploration(r) or not ("is violated" in r["out"] or "Assert" in r["out"]):
+            raise tlc.TLCError("spec mutant Bug=%s of HGImpl was NOT rejected by TLC (vacuous invariants?)" % bug)
+        rejected.append(bug)
+    res.cov(spec_mutants_rejected=rejected)
 
 
 def run(tier, seed):
-    return run_container("C01", "hg", tier, seed, cc=False)
+    res = Result("C01", tier, seed, "model_checking")
+    explore_impl(res, tier)
+    return run_container("C01", "hg", tier, seed, cc=False, res=res)
 
 
 def replay(path):
